@@ -14,7 +14,7 @@ package controller
 //@   requires mapInv(f) && util.inInt32(target)
 //@   ensures[C12.nearest C01 C05] nearestIn(distinct(f), result, target)
 //@   ensures[C12.exact C01 C05]   (forall k :: 0 <= k && k < len(distinct(f)) && distinct(f)[k] == target ==> result == target)
-//@   ensures[C05.fn C07] result == closestOf(target, distinct(f))
+//@   ensures[C05.fn C07 C12] result == closestOf(target, distinct(f))
 //@   modifies nothing
 
 //@ func (*DefaultFanController).applyPwmMapping
@@ -26,7 +26,7 @@ package controller
 //@ func (*DefaultFanController).getPwm
 //@   params (f)
 //@   requires fans.fanWF(f.fan)
-//@   ensures[C05.read] f.fan is *fans.HwMonFan && result1 == nil && supportsResult[fans.FeaturePwmSensor] ==> result0 == fileInt[fans.hwPwmPath(f.fan.(*fans.HwMonFan))]
+//@   ensures[C05.read C12] f.fan is *fans.HwMonFan && result1 == nil && supportsResult[fans.FeaturePwmSensor] ==> result0 == fileInt[fans.hwPwmPath(f.fan.(*fans.HwMonFan))]
 //@   modifies f.fan.(*fans.HwMonFan).Pwm, f.fan.(*fans.FileFan).Pwm, f.fan.(*fans.CmdFan).Pwm, procWorld, started, lastReadFailed, supportsResult
 
 //@ ghost var setOK gmap[int]bool
